@@ -10,16 +10,16 @@ CHECKS = {
  "C01": ("exploration","Seeded search over interleavings of mutators, deliveries and nested deliveries of the real registry code; temporal + happens-before oracles on snapshot alloc/read/free events, API-level canary oracle. A clean batch is evidence, not proof.","sp granularity = shared-memory ops of hooked files; memory model under-approximates C11; bounds: <=5 threads, <=10 mutator ops per run",TECH,"regsim"),
  "C02": ("exploration","Seeded search; every run's history of mutator calls and deliveries is checked for linearisability against the per-signal ordered-list model (deliveries = atomic reads).","as C01; histories <= 60 events",TECH+"; Wing-Gong linearisability oracle","regsim"),
  "C03": ("fault_enumeration","Enumerated sweep: 12 two-operation scenarios x every scheduling point of the interrupted operation x {nested delivery, freeze-all + solo delivery}, all built-in actions; then seeded search (registry and iterator workloads, armed conditional-default with sigprocmask/raise as scheduling points). Oracles: no lock/yield/spin/alloc/free/panic inside a delivery, bounded own steps.","allocator oracle sees the Rust global allocator only; flag.rs atomics are caller-owned std atomics",TECH+"; crash-point style enumeration of interrupt/freeze points","regsim"),
- "C04": ("exploration","Seeded search over arrival instants relative to first registrations with previous disposition in {default, ignore, plain, siginfo}; per-delivery oracle on the harness-installed foreign handler's call log.","nobody but the library changes dispositions after set-up",TECH,"regsim"),
- "C05": ("exploration","Seeded histories (5-400 ops) over the whole registry API on all catchable signals, checked op by op against a reference model incl. the kernel-visible disposition; concurrent id-uniqueness part in regsim.","EINTR clause replaced by the SA_RESTART flag query",TECH+"; reference-model conformance over seeded histories with rejected-call faults","histsim"),
+ "C04": ("exploration","Seeded search over arrival instants relative to first registrations with previous disposition in {default, ignore, plain, siginfo}; per-delivery oracle on the harness-installed foreign handler's call log (foreign handlers are interruptible: other signals nest inside them).","nobody but the library changes dispositions after set-up",TECH,"regsim"),
+ "C05": ("exploration","Seeded histories (5-400 ops) over the whole registry API on all catchable signals (incl. SIGILL/SIGFPE through the unchecked entry points), checked op by op against a reference model incl. the kernel-visible disposition; concurrent id-uniqueness part in regsim.","EINTR clause replaced by the SA_RESTART flag query",TECH+"; reference-model conformance over seeded histories with rejected-call faults","histsim"),
  "C06": ("exploration","Seeded search over producer/consumer/nested-send interleavings incl. weak-memory stale reads; history oracle with definite-order clauses (a)-(e); sequential scripts against the exact 5-deep FIFO.","view model under-approximates C11",TECH,"chansim"),
  "C07": ("exploration","Same runs; FastTrack happens-before check on cell accesses built from the declared orderings; per-token drop accounting, also when the channel is dropped with values in flight and one payload destructor panics.","same-thread nested accesses invisible to vector clocks (covered by drop-site rule)",TECH,"chansim"),
  "C08": ("fault_enumeration","Enumerated sweep: channel state x op x every scheduling point x nested op x spurious-CAS rate with everybody else frozen; then seeded search with freeze and spurious-CAS faults. Oracles: own-step bound, no wait, no panic.","<= 3 consecutive spurious weak-CAS failures",TECH+"; crash-point style enumeration","chansim"),
- "C09": ("exploration","Seeded search over consumer (wait/forever/pending/poll) x deliverers x nested deliveries on the consumer x add_signal/close controller; quiescent no-lost-signal oracle.","reactor behind poll_signal is a stub in 7/8 of the runs (real tokio adapter in the rest); pipes are real kernel objects never blocked on; faults: EINTR on the blocking read, full self-pipe, reactor turned by another thread, range-edge signal numbers",TECH,"itersim"),
+ "C09": ("exploration","Seeded search over consumer (wait/forever/pending/poll/tokio stream/mio event loop) x deliverers x nested deliveries on the consumer x add_signal/close controller; quiescent no-lost-signal oracle.","reactor behind poll_signal is a stub in 3/4 of the runs; 1/8 drive the real tokio adapter and 1/8 the real signal-hook-mio adapter (all four mio versions) on a real edge-triggered mio::Poll; pipes are real kernel objects never blocked on; faults: EINTR on the blocking read, full self-pipe, reactor turned by another thread, mio source re-armed between polls, range-edge signal numbers",TECH,"itersim"),
  "C10": ("exploration","Same runs with bursts and unwatched signals; yields <= deliveries, watched only, info records byte-identical to one delivery, per-signal order; si_code rotates over all cause classes and a yielded Origin must equal an independent reading of one delivery's raw bytes.","as C09",TECH,"itersim"),
- "C11": ("exploration","Same engine with 1-3 handle clones closing at arbitrary instants; sticky is_closed, bounded termination, poll contract (Pending only after a false readiness answer in the same call).","1/4 of the runs drive the real tokio adapter (half of them with a second thread turning the I/O driver); Arc reference counts of the iterator back-end are scheduling points",TECH,"itersim"),
+ "C11": ("exploration","Same engine with 1-3 handle clones closing at arbitrary instants; sticky is_closed, bounded termination, poll contract (Pending only after a false readiness answer in the same call).","1/4 of the runs drive the real tokio adapter (half of them with a second thread turning the I/O driver, half with a different waker on every poll), 1/64 the real async-std adapter; Arc reference counts of the iterator back-end are scheduling points",TECH,"itersim"),
  "C12": ("exploration","Seeded histories over new/with_pipe/add_signal(valid|watched|forbidden|negative|too large|OS-rejected)/handles/close/drop with panics caught, one forked process per history; reference model of the watched set + independent witness flags.","single simulated thread; the fault dimension is the rejected call",TECH+"; reference-model conformance, process-abort observation","histsim"),
- "C13": ("fault_enumeration","Enumerated grid: descriptor kind x blocking mode x fill level x burst length x entry point x ending, plus seeded histories; oracles on bytes read back, would-block probe, fd validity and fd-number reuse probe.","wall-clock only as a watchdog for a blocking wake",TECH+"; configuration x fault enumeration","histsim"),
+ "C13": ("fault_enumeration","Enumerated grid: descriptor kind x blocking mode x fill level x burst length x entry point x ending, plus seeded histories (a fifth of them with the write end on descriptor 0); oracles on bytes read back, would-block probe, fd validity and fd-number reuse probe.","wall-clock only as a watchdog for a blocking wake",TECH+"; configuration x fault enumeration","histsim"),
  "C14": ("fault_enumeration","Enumerated: every registration entry point x signal in [-2,130] plus extremes x {fresh, after other registrations, same number through an unchecked entry point before, instance already watching the number modulo 128}, each in its own forked process under catch_unwind; dispositions of all 64 signals bit-identical before/after, canaries released.","none beyond the kernel being the real one",TECH+"; rejected call as injected fault","histsim"),
  "C15": ("exploration","Seeded arm/disarm/deliver histories per forked process, both registration orders, statuses 0..255; parent compares the real wait status with the reference model's prediction; atexit and at_quick_exit markers must be absent.","op-granular interleaving only",TECH+"; process-exit observation against a reference model","histsim"),
  "C18": ("exploration","Seeded search with panicking mutators; scheduler deadlock/livelock verdicts (fair scheduler, finite deliveries) and quiescent solo completion within 64 own steps.","fairness bound 200 steps; simultaneous-idle blind spot stated in DESIGN.md",TECH,"regsim"),
